@@ -2,8 +2,11 @@
 from corr import corr_assemble, corr_terms, corr_ghost
 import solversearch as SS
 
-MODULES = ["PyFV.Props.C04", "PyFV.Props.GenEqBC"]
-TRANSLATORS = {"T-lim": "python3 harness/translate/tlim.py lean/PyFV/Gen/Limiters.lean", "T-bc": "python3 harness/translate/tbc.py lean/PyFV/Gen/BCGen.lean"}
+MODULES = ["PyFV.Props.C04", "PyFV.Props.GenEqBC", "PyFV.Props.GenEqState", "PyFV.Props.GenEqAsm"]
+TRANSLATORS = {"T-lim": "python3 harness/translate/tlim.py lean/PyFV/Gen/Limiters.lean",
+               "T-bc": "python3 harness/translate/tbc.py lean/PyFV/Gen/BCGen.lean",
+               "T-state": "python3 harness/translate/tstate.py lean/PyFV/Gen/StateGen.lean",
+               "T-asm": "python3 harness/translate/tasm.py lean/PyFV/Gen/AsmGen.lean"}
 
 
 def corr(rng, tier):
